@@ -11,23 +11,22 @@ Section Stmt2Conv.
   Variable okfn : ident -> Prop.
   Variable purev : ident -> bool.
   Hypothesis Hpure : forall f, okfn f -> pure_fn call f.
-  Hypothesis Hinh : f_inherited fl = [].
   Variable m : qmatch.
 
   Notation den2 := (den2 call).
-  Notation Renv2 := (Renv2 call purev).
-  Notation epost2 := (epost2 call purev).
-  Notation econv2 := (econv2 call purev).
+  Notation Renv2 := (Renv2 t fl call purev).
+  Notation epost2 := (epost2 t fl call purev).
+  Notation econv2 := (econv2 t fl call purev).
   Notation fexpr2' := (fexpr2 okfn purev m).
   Notation fattr2' := (fattr2 okfn purev m).
   Notation fstmt2' := (fstmt2 okfn purev m).
   Notation env_rel' := (env_rel m).
-  Notation Rel2 := (Rel2 call purev).
-  Notation RelX2 := (RelX2 call purev).
-  Notation rel_step2 := (rel_step2 call purev).
-  Notation apost2 := (apost2 call purev).
+  Notation Rel2 := (Rel2 t fl call purev).
+  Notation RelX2 := (RelX2 t fl call purev).
+  Notation rel_step2 := (rel_step2 t fl call purev).
+  Notation apost2 := (apost2 t fl call purev).
   Notation den_attrs2 := (den_attrs2 call).
-  Notation xsim2 := (xsim2 call purev).
+  Notation xsim2 := (xsim2 t fl call purev).
 
   Hypothesis Hsh : Forall (fun sh => purev (sh_var sh) = false /\ All fattr2' (sh_attrs sh)) (f_shorthands fl).
 
@@ -35,7 +34,7 @@ Section Stmt2Conv.
   Notation leval' := (leval t fl glob call).
   Notation exec_attr' := (exec_attr t fl glob call).
   Notation lexec_attr' := (lexec_attr t fl glob call).
-  Notation eval_conv2' := (eval_conv2 t fl glob call okfn purev Hpure Hinh m).
+  Notation eval_conv2' := (eval_conv2 t fl glob call okfn purev Hpure m).
 
   Definition aconv2 (tgt : target) (ms : M sstate unit) (mlf : nat -> M lstate (list (ident * lvalue))) : Prop :=
     forall ss p u ss' p', ms ss p = Ok (u, ss', p') -> forall w ls pl, Renv2 w ss ls -> nob pl ->
@@ -80,7 +79,7 @@ Section Stmt2Conv.
       { destruct HR1 as (A1 & A2 & A3). split; [exact A1|]. split; [|exact A3]. constructor; [constructor|constructor]. }
       rewrite Forall_forall in Hsh. destruct (Hsh sh (find_shorthand_In _ _ _ Esh)) as [Hshv Hsha].
       assert (Hd1' : den2 w1 (purev (sh_var sh)) lv v) by (rewrite Hshv; exact Hd1).
-      apply convP_bind. eapply convP_mono; [apply (unscoped_add_conv2 glob call purev ll (sh_var sh) v lv false _ _ _ _ _ w1 _ pl1 H3 HR2 Hd1' Hb1)|].
+      apply convP_bind. eapply convP_mono; [apply (unscoped_add_conv2 t fl glob call purev ll (sh_var sh) v lv false _ _ _ _ _ w1 _ pl1 H3 HR2 Hd1' Hb1)|].
       intros _ ls3 pl3 (Hb3 & (Sg3 & Sp3 & Ssc3) & Hf3 & w3 & Hp3 & HR3 & _).
       assert (Hin : forall a0, In a0 (sh_attrs sh) -> aconv2 tgt (exec_attr' fuel le tgt a0) (fun lf => lexec_attr' lf ll a0)).
       { intros a0 Hin0. apply IH; [|exact Henv]. apply (All_In _ _ _ Hsha Hin0). }
@@ -176,7 +175,7 @@ Section Stmt2Conv.
   Lemma xconv2_eager fuel le ll e : fexpr2' true e -> env_rel' le ll -> xconv2 eq (eval' fuel le e) (fun lf => leager t fl glob call lf ll e).
   Proof.
     intros Hf Henv ss p v ss' p' H ls pl [w HR] Hb.
-    eapply convP_mono; [apply (leager_conv2 t fl glob call okfn purev Hpure Hinh m fuel le ll e _ _ _ _ _ w ls pl Hf Henv H (proj1 HR) Hb)|].
+    eapply convP_mono; [apply (leager_conv2 t fl glob call okfn purev Hpure m fuel le ll e _ _ _ _ _ w ls pl Hf Henv H (proj1 HR) Hb)|].
     intros v' ls' pl' (-> & HP). destruct (rel_step2 _ w tt ss ss' ls tt ls' pl' HR HP) as (w' & _ & HR' & _).
     split; [apply HP|]. split; [exists w'; exact HR'|reflexivity].
   Qed.
@@ -199,7 +198,7 @@ Section Stmt2Conv.
     apply (convP_bind (fun lf => leval' lf ll e) (fun _ x0 => lunscoped_add glob ll name x0 mu)).
     eapply convP_mono; [apply (eval_conv2' fuel le ll e _ Hf Henv _ _ _ _ _ H1 w ls pl (proj1 HR) Hb)|].
     intros lv ls1 pl1 HP1. destruct (rel_step2 _ w x ss s1 ls lv ls1 pl1 HR HP1) as (w1 & _ & HR1 & Hd).
-    eapply convP_mono; [apply (unscoped_add_conv2 glob call purev ll name x lv mu _ _ _ _ _ w1 ls1 pl1 H2 (proj1 HR1) Hd (proj1 HP1))|].
+    eapply convP_mono; [apply (unscoped_add_conv2 t fl glob call purev ll name x lv mu _ _ _ _ _ w1 ls1 pl1 H2 (proj1 HR1) Hd (proj1 HP1))|].
     intros [] ls' pl' HP. destruct (rel_step2 _ w1 tt s1 ss' ls1 tt ls' pl' HR1 HP) as (w' & _ & HR' & _).
     split; [apply HP|]. split; [exists w'; exact HR'|exact I].
   Qed.
@@ -210,7 +209,7 @@ Section Stmt2Conv.
     apply (convP_bind (fun lf => leval' lf ll e) (fun _ x0 => lunscoped_set glob ll name x0)).
     eapply convP_mono; [apply (eval_conv2' fuel le ll e _ Hf Henv _ _ _ _ _ H1 w ls pl (proj1 HR) Hb)|].
     intros lv ls1 pl1 HP1. destruct (rel_step2 _ w x ss s1 ls lv ls1 pl1 HR HP1) as (w1 & _ & HR1 & Hd).
-    eapply convP_mono; [apply (unscoped_set_conv2 glob call purev ll name x lv _ _ _ _ _ w1 ls1 pl1 H2 (proj1 HR1) Hd (proj1 HP1))|].
+    eapply convP_mono; [apply (unscoped_set_conv2 t fl glob call purev ll name x lv _ _ _ _ _ w1 ls1 pl1 H2 (proj1 HR1) Hd (proj1 HP1))|].
     intros [] ls' pl' HP. destruct (rel_step2 _ w1 tt s1 ss' ls1 tt ls' pl' HR1 HP) as (w' & _ & HR' & _).
     split; [apply HP|]. split; [exists w'; exact HR'|exact I].
   Qed.
@@ -238,7 +237,7 @@ Section Stmt2Conv.
     intros slv ls1 pl1 HP1. destruct (rel_step2 _ w (VSyn n) ss s1 ls slv ls1 pl1 HR HP1) as (w1 & Hp1 & HR1 & Hds). unfold Qd in Hds.
     pose proof (den2_mono call w w1 (wext0_wext _ _ Hp1) _ _ _ Hdx) as Hdx1.
     apply convP_of_lres; [|apply scoped_tail_noof].
-    apply (scoped_def_tail call purev (ll_ctx ll) n name x lvx slv s1 p1 u ss' p' w1 ls1 pl1 H3 HR1 Hds Hdx1 (proj1 HP1)).
+    apply (scoped_def_tail t fl call purev (ll_ctx ll) n name x lvx slv s1 p1 u ss' p' w1 ls1 pl1 H3 HR1 Hds Hdx1 (proj1 HP1)).
   Qed.
   Lemma xconv2_scoped_val fuel le ll sc name x : fexpr2' true sc -> env_rel' le ll ->
     xconvU2 (sv <- eval' fuel le sc ;; n <- scope_of sv ;; scoped_add_at n name x false)
@@ -287,7 +286,7 @@ Section Stmt2Conv.
     eapply convP_mono; [apply (attrs_conv2 (TNode n) _ (fun lf => lexec_attr' lf ll) attrs (attrs_all_conv2 fuel le ll (TNode n) attrs Hfa Henv) _ _ _ _ _ H3 w1 ls1 pl1 (proj1 HR1) (proj1 HP1))|].
     intros outs ls2 pl2 (Hb2 & Hf2 & Hsc2 & w2 & kvs & Hp2 & HR2 & Hd2 & Hg2).
     unfold push_lstmt, Lazy.upd. apply convP_modify. split; [exact Hb2|]. split; [|exact I]. exists w2.
-    apply (rel_push_attr2 call purev w1 w2 s1 ss' ls1 ls2 _ (map (mk (TNode n)) kvs) HR1 Hp2 Hf2 Hsc2 HR2); [|exact Hg2].
+    apply (rel_push_attr2 t fl call purev w1 w2 s1 ss' ls1 ls2 _ (map (mk (TNode n)) kvs) HR1 Hp2 Hf2 Hsc2 HR2); [|exact Hg2].
     exists n, kvs. split; [eapply den2_mono; [apply wext0_wext, Hp2|exact Hdn]|]. split; [exact Hd2|reflexivity].
   Qed.
 
@@ -307,7 +306,7 @@ Section Stmt2Conv.
     eapply convP_mono; [apply (attrs_conv2 (TEdge a b) _ (fun lf => lexec_attr' lf ll) attrs (attrs_all_conv2 fuel le ll (TEdge a b) attrs Hfat Henv) _ _ _ _ _ H3 w2 ls2 pl2 (proj1 HR2) (proj1 HP2))|].
     intros outs ls3 pl3 (Hb3 & Hf3 & Hsc3 & w3 & kvs & Hp3 & HR3 & Hd3 & Hg3).
     unfold push_lstmt, Lazy.upd. apply convP_modify. split; [exact Hb3|]. split; [|exact I]. exists w3.
-    apply (rel_push_attr2 call purev w2 w3 s2 ss' ls2 ls3 _ (map (mk (TEdge a b)) kvs) HR2 Hp3 Hf3 Hsc3 HR3); [|exact Hg3].
+    apply (rel_push_attr2 t fl call purev w2 w3 s2 ss' ls2 ls3 _ (map (mk (TEdge a b)) kvs) HR2 Hp3 Hf3 Hsc3 HR3); [|exact Hg3].
     exists a, b, kvs. split; [eapply den2_mono; [|exact Hda]; apply wext0_wext; eapply wext0_trans; eauto|]. split; [eapply den2_mono; [apply wext0_wext, Hp3|exact Hdb]|]. split; [exact Hd3|reflexivity].
   Qed.
 
@@ -327,7 +326,7 @@ Section Stmt2Conv.
     intros b' ls2 pl2 HP2. destruct (rel_step2 _ w1 b s1 s2 ls1 b' ls2 pl2 HR1 HP2) as (w2 & Hp12 & HR2 & Hdb).
     unfold push_lstmt, Lazy.upd. apply convP_modify. split; [apply HP2|]. split; [|exact I]. exists w2.
     destruct (add_edge_ok _ _ _ _ _ _ _ H3) as [Hedge Hs].
-    apply (rel_push_edge2 call purev w2 s2 ss' ls2 a' b' a b dbg HR2); [eapply den2_mono; [apply wext0_wext, Hp12|exact Hda]|exact Hdb|exact Hedge| |]; rewrite Hs; reflexivity.
+    apply (rel_push_edge2 t fl call purev w2 s2 ss' ls2 a' b' a b dbg HR2); [eapply den2_mono; [apply wext0_wext, Hp12|exact Hda]|exact Hdb|exact Hedge| |]; rewrite Hs; reflexivity.
   Qed.
 
   Lemma print_arg_conv2 fuel le ll e : fexpr2' false e -> env_rel' le ll ->
@@ -352,7 +351,7 @@ Section Stmt2Conv.
     intros Hf Henv ss p u ss' p' H ls pl [w HR] Hb. destruct (iterM_mapM _ _ _ _ _ _ _ H) as (us & H').
     apply (convP_bind (fun lf => mapM (fun e => match e with EStr _ => ret None | _ => lv <- leval' lf ll e ;; ret (Some lv) end) values)
                       (fun _ args => push_lstmt (LSPrint args dbg))).
-    eapply convP_mono; [apply (trav_conv2 call purev _ (fun lf e => match e with EStr _ => ret None | _ => lv <- leval' lf ll e ;; ret (Some lv) end) (arg_ok2 call) (fexpr2' false) (arg_ok2_mono call) (fun e He => print_arg_conv2 fuel le ll e He Henv) values Hf _ _ _ _ _ H' w ls pl (proj1 HR) Hb)|].
+    eapply convP_mono; [apply (trav_conv2 t fl call purev _ (fun lf e => match e with EStr _ => ret None | _ => lv <- leval' lf ll e ;; ret (Some lv) end) (arg_ok2 call) (fexpr2' false) (arg_ok2_mono call) (fun e He => print_arg_conv2 fuel le ll e He Henv) values Hf _ _ _ _ _ H' w ls pl (proj1 HR) Hb)|].
     intros args ls1 pl1 HP. destruct (rel_step2 _ w us ss ss' ls args ls1 pl1 HR HP) as (w1 & _ & HR1 & HF).
     unfold push_lstmt, Lazy.upd. apply convP_modify. split; [apply HP|]. split; [|exact I]. exists w1.
     destruct HR1 as (A & Hcells & Hnd & Hss & Hpr & B). split; [exact A|]. split; [exact Hcells|]. split; [exact Hnd|]. split; [exact Hss|]. split; [|exact B].
